@@ -154,22 +154,49 @@ impl Stringify for Node {
     }
 }
 
+/// Does the printed form of this expression (as mixed text) start with `{`?
+fn text_starts_with_brace(expr: &Expression) -> bool {
+    match expr {
+        Expression::LitStr { value, .. } => value.starts_with('{'),
+        Expression::Plus { left, right, .. } if is_text_shaped(left) && is_text_shaped(right) => {
+            text_starts_with_brace(left)
+        }
+        _ => true,
+    }
+}
+
+/// Only a chain made of static segments and `{{ ... }}` segments is mixed text;
+/// a user-written `'a' + b` must stay an expression (it renders `null` differently).
+fn is_text_shaped(expr: &Expression) -> bool {
+    match expr {
+        Expression::LitStr { .. } | Expression::ToStringWithoutUndefined { .. } => true,
+        Expression::Plus { left, right, .. } => is_text_shaped(left) && is_text_shaped(right),
+        _ => false,
+    }
+}
+
 /// Write sibling nodes. Text nodes that are only separated by comments (which are not printed)
-/// become adjacent in the output: a static text ending in `{` must then not join the next text.
+/// become adjacent in the output: a static text ending in `{` must then not join a `{` after it.
 fn stringify_children<'s, W: FmtWrite>(
     children: &[Node],
     stringifier: &mut Stringifier<'s, W>,
 ) -> FmtResult {
     for (i, child) in children.iter().enumerate() {
-        if let Node::Text(Value::Static { value, location }) = child {
+        if let Node::Text(..) = child {
             let next_printed = children[i + 1..]
                 .iter()
                 .find(|x| !matches!(x, Node::Comment(..)));
-            if value.ends_with('{') && matches!(next_printed, Some(Node::Text(..))) {
-                let quoted = escape_html_body_before_binding(value);
-                stringifier.write_token(&quoted, None, location)?;
-                continue;
-            }
+            stringifier.followed_by_brace = match next_printed {
+                Some(Node::Text(Value::Static { value, .. })) => value.starts_with('{'),
+                Some(Node::Text(Value::Dynamic { expression, .. })) => {
+                    text_starts_with_brace(expression)
+                }
+                _ => false,
+            };
+            let ret = child.stringify_write(stringifier);
+            stringifier.followed_by_brace = false;
+            ret?;
+            continue;
         }
         child.stringify_write(stringifier)?;
     }
@@ -193,13 +220,18 @@ fn is_children_empty(children: &[Node]) -> bool {
 fn is_empty_value(value: &Value) -> bool {
     match value {
         Value::Static { value, .. } => value.is_empty(),
-        // `{{ '' }}` is printed as an empty static string
+        // `{{ '' }}` (and `{{ '' + '' }}`) is printed as an empty static string
         Value::Dynamic { expression, .. } => {
-            if let Expression::LitStr { value, .. } = &**expression {
-                value.is_empty()
-            } else {
-                false
+            fn prints_nothing(expr: &Expression) -> bool {
+                match expr {
+                    Expression::LitStr { value, .. } => value.is_empty(),
+                    Expression::Plus { left, right, .. } => {
+                        prints_nothing(left) && prints_nothing(right)
+                    }
+                    _ => false,
+                }
             }
+            prints_nothing(expression)
         }
     }
 }
@@ -728,9 +760,14 @@ impl Stringify for Element {
 
 impl Stringify for Value {
     fn stringify_write<'s, W: FmtWrite>(&self, stringifier: &mut Stringifier<'s, W>) -> FmtResult {
+        let followed_by_brace = stringifier.followed_by_brace;
         match self {
             Self::Static { value, location } => {
-                let quoted = escape_html_body(&value);
+                let quoted = if followed_by_brace {
+                    escape_html_body_before_binding(&value)
+                } else {
+                    escape_html_body(&value)
+                };
                 stringifier.write_token(&format!("{}", quoted), None, &location)?;
             }
             Self::Dynamic {
@@ -743,26 +780,16 @@ impl Stringify for Value {
                     stringifier: &mut Stringifier<'s, W>,
                     start_location: &Range<Position>,
                     end_location: &Range<Position>,
+                    followed_by_brace: bool,
                 ) -> FmtResult {
-                    // only a chain made of static segments and `{{ ... }}` segments is mixed text;
-                    // a user-written `'a' + b` must stay an expression (it renders `null` differently)
-                    fn is_text_shaped(expr: &Expression) -> bool {
-                        match expr {
-                            Expression::LitStr { .. }
-                            | Expression::ToStringWithoutUndefined { .. } => true,
-                            Expression::Plus { left, right, .. } => {
-                                is_text_shaped(left) && is_text_shaped(right)
-                            }
-                            _ => false,
-                        }
-                    }
                     match expr {
                         Expression::LitStr { value, location } => {
-                            stringifier.write_token(
-                                &escape_html_body_before_binding(value),
-                                None,
-                                location,
-                            )?;
+                            let quoted = if followed_by_brace {
+                                escape_html_body_before_binding(value)
+                            } else {
+                                escape_html_body(value)
+                            };
+                            stringifier.write_token(&quoted, None, location)?;
                             return Ok(());
                         }
                         Expression::ToStringWithoutUndefined { value, location } => {
@@ -777,8 +804,20 @@ impl Stringify for Value {
                             location,
                         } => {
                             if is_text_shaped(left) && is_text_shaped(right) {
-                                split_expression(&left, stringifier, start_location, location)?;
-                                split_expression(&right, stringifier, location, end_location)?;
+                                split_expression(
+                                    &left,
+                                    stringifier,
+                                    start_location,
+                                    location,
+                                    text_starts_with_brace(right),
+                                )?;
+                                split_expression(
+                                    &right,
+                                    stringifier,
+                                    location,
+                                    end_location,
+                                    followed_by_brace,
+                                )?;
                                 return Ok(());
                             }
                         }
@@ -789,11 +828,13 @@ impl Stringify for Value {
                     stringifier.write_token("}}", None, &end_location)?;
                     Ok(())
                 }
+                stringifier.followed_by_brace = false;
                 split_expression(
                     &expression,
                     stringifier,
                     &double_brace_location.0,
                     &double_brace_location.1,
+                    followed_by_brace,
                 )?;
             }
         }
